@@ -1,5 +1,222 @@
-import YModel.ExpectSpec
-namespace YModel.Expect
-/-- placeholder while the harness is brought up -/
-theorem expect_nil_placeholder : canon ([] : List (Op Int)) = [] := rfl
-end YModel.Expect
+import YProofs.Lemmas.GramPSD
+import YProofs.Lemmas.ExpectLemmas
+import YProofs.Lemmas.SwapsBook
+/-!
+# C12 — Exact PEPS environments give exact expectation values and valid metrics
+
+**What is proved here and what is not.**  The environment algorithms (`EnvBoundaryMPS`, `EnvCTM`, `EnvBP`, `EnvNTU`,
+`evolution_step_`) are *not* modelled.  This file contains
+
+* the theorems about the executable **specification** of an expectation value (`YModel/ExpectSpec.lean`): what
+  "equal to the dense state, including all fermionic signs, with the identity measuring 1" means
+  (`expect_spec_props` and its parts),
+* the generic **positivity** facts behind "bond metrics are Hermitian and positive semi-definite"
+  (`gram_psd`, `cp_compose`): a cluster contraction whose bra layer is the conjugate of its ket layer has Gram form,
+* the **bookkeeping** of `DoublePepsTensor.add_charge_swaps_` with which all `measure_*` functions place their
+  Jordan–Wigner strings (`charge_swap_toggle` and its parts).
+
+The tie to the code is the differential test `harness/props/c12.py` (level *translation validation*): the real
+environments against a NumPy Jordan–Wigner reference, the Lean driver against the real `sign_canonical_order` and
+`add_charge_swaps_`, and the Lean specification `expect` against the NumPy reference on exact integer data.
+-/
+open Matrix
+open scoped ComplexOrder
+
+namespace YModel
+
+/-! ## positivity of Gram-form metrics -/
+
+/-- **gram_psd** (clause "bond metrics are Hermitian and positive semi-definite"): every metric of Gram form
+`g = Σ_k X_k† X_k` over ℝ or ℂ is Hermitian, positive semi-definite, has a non-negative quadratic form and only
+non-negative eigenvalues — for all index sets, all dimensions, all matrices. -/
+theorem gram_psd {𝕜 : Type*} [RCLike 𝕜] {m n ι : Type*} [Fintype m] [Fintype n] [DecidableEq n]
+    (s : Finset ι) (X : ι → Matrix m n 𝕜) :
+    (Gram.gram s X).IsHermitian ∧ (Gram.gram s X).PosSemidef ∧
+      (∀ x : n → 𝕜, 0 ≤ star x ⬝ᵥ (Gram.gram s X *ᵥ x)) ∧
+      (∀ i, 0 ≤ (Gram.gram_isHermitian s X).eigenvalues i) :=
+  ⟨Gram.gram_isHermitian s X, Gram.gram_posSemidef s X, Gram.gram_quadratic_nonneg s X,
+    Gram.gram_eigenvalues_nonneg s X⟩
+
+/-- **cp_compose** (why tree-like NTU clusters keep valid metrics): conjugation `g ↦ B† g B` — attaching one more
+layer of ket tensors `B` together with their conjugates — maps positive semi-definite metrics to positive
+semi-definite metrics, and maps Gram form to Gram form: `B† (Σ X_k† X_k) B = Σ (X_k B)† (X_k B)`. -/
+theorem cp_compose {𝕜 : Type*} [RCLike 𝕜] {m n p ι : Type*} [Fintype m] [Fintype n] [Fintype p] :
+    (∀ (g : Matrix n n 𝕜) (B : Matrix n p 𝕜), g.PosSemidef → (Bᴴ * g * B).PosSemidef) ∧
+    (∀ (s : Finset ι) (X : ι → Matrix m n 𝕜) (B : Matrix n p 𝕜),
+        Bᴴ * Gram.gram s X * B = Gram.gram s (fun k => X k * B)) :=
+  ⟨fun _ B hg => hg.conjTranspose_mul_mul_same B, fun s X B => Gram.gram_conj s X B⟩
+
+/-- non-vacuity: a concrete non-diagonal Gram matrix (`X = [[1,2],[0,1]]`, `X†X = [[1,2],[2,5]]`) -/
+example : (!![1, 2; 2, 5] : Matrix (Fin 2) (Fin 2) ℝ).PosSemidef := by
+  have h := (gram_psd (𝕜 := ℝ) (Finset.univ : Finset (Fin 1)) (fun _ => (!![1, 2; 0, 1] : Matrix (Fin 2) (Fin 2) ℝ))).2.1
+  have e : Gram.gram (Finset.univ : Finset (Fin 1)) (fun _ => (!![1, 2; 0, 1] : Matrix (Fin 2) (Fin 2) ℝ))
+      = !![1, 2; 2, 5] := by
+    unfold Gram.gram
+    ext i j
+    fin_cases i <;> fin_cases j <;> (simp [Matrix.mul_apply, Fin.sum_univ_two]; try norm_num)
+  rwa [e] at h
+
+namespace Expect
+
+/-! ## the specification of expectation values -/
+
+/-- **graded reordering** (clause "including all fermionic signs"): exchanging two neighbouring operators that act on
+*different* sites multiplies the specified expectation value by `(−1)^{⟨n_a, n_b⟩_fss}` — for every operator word,
+every state, every `config.fermionic`, every commutative value ring (operators on one site are never exchanged).
+Built on the C05 inversion lemma `invSign_swap_adjacent`. -/
+theorem expect_reorder {R : Type} [CommRing R] (f : Fermionic) (basis : List Charge) (d : Nat) (conj : R → R)
+    (pre : List (Op R)) (a b : Op R) (post : List (Op R)) (v : State R) (h : a.site ≠ b.site) :
+    expect f basis d conj (pre ++ a :: b :: post) v =
+      zsign (sgn (f.weight a.charge b.charge)) (expect f basis d conj (pre ++ b :: a :: post) v) := by
+  unfold expect
+  rw [specSign_swap_adjacent f pre a b post h, canon_swap_adjacent pre a b post h,
+    zsign_mul _ _ (sgn_cases _) (specSign_cases f _)]
+
+/-- the sign of the specification (closed form: weighted inversion parity) is the sign computed by the selection
+loop of `sign_canonical_order` (C05), for every operator word -/
+theorem specSign_eq_source_loop {R : Type} (f : Fermionic) (ops : List (Op R)) : scoSign f ops = specSign f ops :=
+  signCanonicalOrder_eq_inversions f natLe_totalPreorder _
+
+/-- bosonic configurations (`fermionic = False` or `()`) carry no sign -/
+theorem specSign_bosonic {R : Type} (f : Fermionic) (hf : f.truthy = false) (ops : List (Op R)) : specSign f ops = 1 := by
+  unfold specSign invSign
+  have : invCount f.weight natLe (ops.map Op.key) = 0 := by
+    generalize ops.map Op.key = l
+    induction l with
+    | nil => rfl
+    | cons x l ih =>
+      obtain ⟨s, n⟩ := x
+      simp only [invCount, ih, Int.add_zero]
+      exact sum_map_zero _ _ (fun q _ => weight_falsy f hf _ _)
+  rw [this]; rfl
+
+/-- **linearity in the ket**: `⟨u| O₁…O_k (c·w₁ + w₂)⟩ = c ⟨u|O₁…O_k w₁⟩ + ⟨u|O₁…O_k w₂⟩`
+(sums of states are concatenations of formal sums) -/
+theorem matrixElement_linear {R : Type} [CommRing R] (f : Fermionic) (basis : List Charge) (d : Nat) (conj : R → R)
+    (ops : List (Op R)) (u w1 w2 : State R) (c : R) :
+    vdot conj u (applyAll f basis d ops (scale c w1 ++ w2)) =
+      c * vdot conj u (applyAll f basis d ops w1) + vdot conj u (applyAll f basis d ops w2) := by
+  rw [applyAll_append, vdot_append, applyAll_scale, vdot_scale]
+
+/-- **the empty product measures `⟨ψ|ψ⟩`** -/
+theorem expect_nil {R : Type} [CommRing R] (f : Fermionic) (basis : List Charge) (d : Nat) (conj : R → R)
+    (v : State R) : expect f basis d conj [] v = vdot conj v v := by
+  simp [expect, specSign, invSign, invCount, sgn, zsign, canon, isort, braket, applyAll]
+
+/-- **the identity measures `⟨ψ|ψ⟩`** (clause "with the identity measuring 1" after division by the norm):
+an operator with a neutral charge (`⟨n, t⟩_fss = 0` for all `t`) and the identity matrix, on any site, for every
+state whose configurations are valid on that site. -/
+theorem expect_identity {R : Type} [CommRing R] (f : Fermionic) (basis : List Charge) (d : Nat) (conj : R → R)
+    (o : Op R) (hw : ∀ t, f.weight o.charge t = 0)
+    (hI : ∀ a b, a < d → b < d → entry o.mat a b = if a = b then 1 else 0)
+    (v : State R) (hv : ∀ t ∈ v, t.1.getD o.site 0 < d) :
+    expect f basis d conj [o] v = vdot conj v v := by
+  have hs : specSign f [o] = 1 := by
+    simp [specSign, invSign, invCount, sgn]
+  unfold expect
+  rw [hs, zsign_one]
+  simp only [canon, isort, insertBy, braket, applyAll, List.foldr_cons, List.foldr_nil]
+  exact vdot_applyOp_identity f basis d conj o hw hI v v hv
+
+/-- **expect_spec_props**: the three clauses together (linearity, identity, graded reordering). -/
+theorem expect_spec_props {R : Type} [CommRing R] (f : Fermionic) (basis : List Charge) (d : Nat) (conj : R → R) :
+    (∀ (ops : List (Op R)) (u w1 w2 : State R) (c : R),
+        vdot conj u (applyAll f basis d ops (scale c w1 ++ w2)) =
+          c * vdot conj u (applyAll f basis d ops w1) + vdot conj u (applyAll f basis d ops w2)) ∧
+    (∀ (o : Op R), (∀ t, f.weight o.charge t = 0) →
+        (∀ a b, a < d → b < d → entry o.mat a b = if a = b then 1 else 0) →
+        ∀ v : State R, (∀ t ∈ v, t.1.getD o.site 0 < d) → expect f basis d conj [o] v = vdot conj v v) ∧
+    (∀ (pre : List (Op R)) (a b : Op R) (post : List (Op R)) (v : State R), a.site ≠ b.site →
+        expect f basis d conj (pre ++ a :: b :: post) v =
+          zsign (sgn (f.weight a.charge b.charge)) (expect f basis d conj (pre ++ b :: a :: post) v)) :=
+  ⟨fun ops u w1 w2 c => matrixElement_linear f basis d conj ops u w1 w2 c,
+   fun o hw hI v hv => expect_identity f basis d conj o hw hI v hv,
+   fun pre a b post v h => expect_reorder f basis d conj pre a b post v h⟩
+
+/-! non-vacuity: spinless fermions (`Z2`, basis charges `[0]`, `[1]`), `c†` on site 0 and `c` on site 1 -/
+
+/-- `c†₀ c₁` and `c₁ c†₀` on the state `|01⟩ + |10⟩` over ℤ: the values are `1` and `−1` -/
+example :
+    expect (R := Int) .all [[0], [1]] 2 id
+        [⟨0, [1], [[0, 0], [1, 0]]⟩, ⟨1, [1], [[0, 1], [0, 0]]⟩] [([0, 1], 1), ([1, 0], 1)] = 1 ∧
+      expect (R := Int) .all [[0], [1]] 2 id
+        [⟨1, [1], [[0, 1], [0, 0]]⟩, ⟨0, [1], [[0, 0], [1, 0]]⟩] [([0, 1], 1), ([1, 0], 1)] = -1 ∧
+      sgn (Fermionic.all.weight [1] [1]) = -1 := by decide
+
+/-- the hypotheses of `expect_identity` are satisfiable: the identity of charge `[0]` on site 1 -/
+example : (∀ t, Fermionic.all.weight [0] t = 0) ∧
+    expect (R := Int) .all [[0], [1]] 2 id [⟨1, [0], [[1, 0], [0, 1]]⟩] [([0, 1], 2), ([1, 0], 3)] = 13 := by
+  constructor
+  · intro t
+    cases t with
+    | nil => rfl
+    | cons x t => simp [Fermionic.weight, dotAll]
+  · decide
+
+/-! ## bookkeeping of `add_charge_swaps_` -/
+
+/-- **charge_swap_toggle / accumulation**: one call `add_charge_swaps_(charge, axes)` with valid axis names raises no
+error and leaves on every axis `a` — componentwise, up to the reduction `mod m` of the symmetry — the previous charge
+plus `charge` times the number of occurrences of `a` in `axes`.  (The source stores the *first* charge of an axis as
+given and reduces from the second one on; hence "up to the reduction".) -/
+theorem charge_swap_accumulate (ms : List Nat) (sw : Swaps) (ch : Charge) (axes : List String)
+    (hv : ∀ ax ∈ axes, validAxes.contains ax = true) (a : String) (j : Nat) (hj : j < ms.length) :
+    (addChargeSwaps ms sw ch axes).2 = false ∧
+    red (ms.getD j 0) ((val ms (addChargeSwaps ms sw ch axes).1 a).getD j 0) =
+      red (ms.getD j 0) ((val ms sw a).getD j 0 + (axes.count a : Int) * ch.getD j 0) :=
+  ⟨addChargeSwaps_valid ms ch axes sw hv, addChargeSwaps_accumulate ms ch a j hj axes sw hv⟩
+
+/-- **order independence**: two calls commute (the accumulated charges are the same up to reduction) -/
+theorem charge_swap_commute (ms : List Nat) (sw : Swaps) (c1 c2 : Charge) (l1 l2 : List String)
+    (h1 : ∀ ax ∈ l1, validAxes.contains ax = true) (h2 : ∀ ax ∈ l2, validAxes.contains ax = true)
+    (a : String) (j : Nat) (hj : j < ms.length) :
+    red (ms.getD j 0) ((val ms (addChargeSwaps ms (addChargeSwaps ms sw c1 l1).1 c2 l2).1 a).getD j 0) =
+      red (ms.getD j 0) ((val ms (addChargeSwaps ms (addChargeSwaps ms sw c2 l2).1 c1 l1).1 a).getD j 0) := by
+  rw [addChargeSwaps_accumulate ms c2 a j hj l2 _ h2, addChargeSwaps_accumulate ms c1 a j hj l1 _ h1]
+  rw [red_add_congr _ _ (addChargeSwaps_accumulate ms c1 a j hj l1 sw h1),
+    red_add_congr _ _ (addChargeSwaps_accumulate ms c2 a j hj l2 sw h2)]
+  congr 1
+  omega
+
+/-- **order independence inside one call**: permuting the listed axes does not change the accumulated charges -/
+theorem charge_swap_perm (ms : List Nat) (sw : Swaps) (ch : Charge) (l1 l2 : List String) (hp : l1.Perm l2)
+    (h1 : ∀ ax ∈ l1, validAxes.contains ax = true) (a : String) (j : Nat) (hj : j < ms.length) :
+    red (ms.getD j 0) ((val ms (addChargeSwaps ms sw ch l1).1 a).getD j 0) =
+      red (ms.getD j 0) ((val ms (addChargeSwaps ms sw ch l2).1 a).getD j 0) := by
+  have h2 : ∀ ax ∈ l2, validAxes.contains ax = true := fun ax hax => h1 ax (hp.mem_iff.mpr hax)
+  rw [addChargeSwaps_accumulate ms ch a j hj l1 sw h1, addChargeSwaps_accumulate ms ch a j hj l2 sw h2, hp.count_eq]
+
+/-- **toggle**: for a `Z₂` component, swapping twice with the same charge cancels -/
+theorem charge_swap_toggle (ms : List Nat) (sw : Swaps) (ch : Charge) (axes : List String)
+    (hv : ∀ ax ∈ axes, validAxes.contains ax = true) (a : String) (j : Nat) (hj : j < ms.length)
+    (h2 : ms.getD j 0 = 2) :
+    red (ms.getD j 0) ((val ms (addChargeSwaps ms (addChargeSwaps ms sw ch axes).1 ch axes).1 a).getD j 0) =
+      red (ms.getD j 0) ((val ms sw a).getD j 0) := by
+  rw [addChargeSwaps_accumulate ms ch a j hj axes _ hv,
+    red_add_congr _ _ (addChargeSwaps_accumulate ms ch a j hj axes sw hv)]
+  rw [h2]
+  unfold red
+  simp only [show (2 : Nat) ≠ 0 by decide, if_false]
+  omega
+
+/-- **zero entries are removed, keys stay distinct** (invariants of `self.swaps`, for every script of calls) -/
+theorem charge_swap_invariants (ms : List Nat) (sw : Swaps) (ch : Charge) (axes : List String)
+    (hz : NoZero ms sw) (hn : (sw.map (·.1)).Nodup) :
+    NoZero ms (addChargeSwaps ms sw ch axes).1 ∧ ((addChargeSwaps ms sw ch axes).1.map (·.1)).Nodup :=
+  ⟨addChargeSwaps_noZero ms ch axes sw hz, addChargeSwaps_nodup ms ch axes sw hn⟩
+
+/-- **error branch**: the first unknown axis name raises; the entries written before it stay written -/
+theorem charge_swap_invalid (ms : List Nat) (sw : Swaps) (ch : Charge) (ax : String) (rest : List String)
+    (h : validAxes.contains ax = false) : addChargeSwaps ms sw ch (ax :: rest) = (sw, true) := by
+  simp only [addChargeSwaps, h, Bool.false_eq_true, if_false]
+
+/-- non-vacuity: `Z₂`, the script of `measure_2x2` for operators on `bl` and `tr` of charge `[1]` on the tensor `tl`:
+`['b3','k4']` then `['k2','k4']` leaves `b3`, `k2` and removes `k4` -/
+example : (addChargeSwaps [2] (addChargeSwaps [2] [] [1] ["b3", "k4"]).1 [1] ["k2", "k4"]) =
+    ([("b3", [1]), ("k2", [1])], false) := by decide
+
+/-- non-vacuity of the error branch and of the raw first entry (`[3]` is stored unreduced for `Z₂`) -/
+example : addChargeSwaps [2] [] [3] ["b0", "kt", "b1"] = ([("b0", [3])], true) := by decide
+
+end Expect
+end YModel
